@@ -280,3 +280,104 @@ func LargeGroup(rng *h.Rng, qualifying bool) string {
 	}
 	return recLine(t, n, coeffs, msgTok, es)
 }
+
+// CollidingLists: a list A of t distinct member numbers < n and a DIFFERENT list B of t distinct member
+// numbers < n whose decimal digits concatenate to the same string ((1,12) / (11,2), (1,2,13) / (12,1,3)).
+func CollidingLists(rng *h.Rng, t, n int) (a, b []int, ok bool) {
+	for try := 0; try < 200; try++ {
+		a = rng.Perm(n)[:t]
+		str := ""
+		for _, i := range a {
+			str += fmt.Sprint(i)
+		}
+		var all [][]int
+		var rec func(pos int, cur []int)
+		rec = func(pos int, cur []int) {
+			if len(all) > 64 {
+				return
+			}
+			if len(cur) == t {
+				if pos == len(str) {
+					all = append(all, append([]int{}, cur...))
+				}
+				return
+			}
+			for l := 1; l <= 3 && pos+l <= len(str); l++ {
+				tok := str[pos : pos+l]
+				if l > 1 && tok[0] == '0' {
+					break
+				}
+				v := h.Atoi(tok)
+				dup := v >= n
+				for _, c := range cur {
+					dup = dup || c == v
+				}
+				if !dup {
+					rec(pos+l, append(cur, v))
+				}
+			}
+		}
+		rec(0, nil)
+		var others [][]int
+		for _, c := range all {
+			same := true
+			for k := range c {
+				same = same && c[k] == a[k]
+			}
+			if !same {
+				others = append(others, c)
+			}
+		}
+		if len(others) > 0 {
+			return a, others[rng.Intn(len(others))], true
+		}
+	}
+	return nil, nil, false
+}
+
+// RecoverHistory builds a history of several tbls.Recover calls in ONE process over different member
+// sequences in arrival order (n > 10, pairs of sequences whose decimal digits concatenate identically,
+// repeated and extended lists, a second message in between): every call must return the group signature
+// of the message in its buffer – recovery is a function of its arguments, not of what was recovered before.
+func RecoverHistory(rng *h.Rng, k int) string {
+	n := 11 + rng.Intn(30)
+	if k%5 == 4 {
+		n = 101 + rng.Intn(60)
+	}
+	t := 2 + rng.Intn(3)
+	coeffs := RandPoly(rng, t, 4+rng.Intn(2))
+	m1, m2 := rng.Bytes(1+rng.Intn(16)), rng.Bytes(1+rng.Intn(16))
+	h1, h2 := HashScalar(m1), HashScalar(m2)
+	a, b, ok := CollidingLists(rng, t, n)
+	if !ok {
+		a, b = rng.Perm(n)[:t], rng.Perm(n)[:t]
+	}
+	set := func(hs *big.Int, members []int) string {
+		var es [][]byte
+		for _, i := range members {
+			es = append(es, ValidShare(coeffs, hs, i))
+		}
+		return EntriesOf(es)
+	}
+	w := func(bf int, hs *big.Int, m []byte) string { return fmt.Sprintf("w:%d:%s:%s", bf, hs, h.Hex(m)) }
+	var st []string
+	switch k % 4 {
+	case 0:
+		st = []string{w(0, h1, m1), "r:0:" + set(h1, a), "r:0:" + set(h1, b)}
+	case 1:
+		st = []string{w(0, h1, m1), w(1, h2, m2), "r:0:" + set(h1, b), "r:1:" + set(h2, a), "r:0:" + set(h1, a), "r:1:" + set(h2, b)}
+	case 2:
+		ext := append(append([]int{}, b...), rng.Perm(n)[:2]...)
+		st = []string{w(0, h1, m1), "r:0:" + set(h1, a), "r:0:" + set(h1, a), "r:0:" + set(h1, b), "r:0:" + set(h1, ext), "r:0:" + set(h1, b[:t-1])}
+	case 3:
+		st = []string{w(0, h1, m1), "r:0:" + set(h1, a)}
+		for j := 3 + rng.Intn(4); j > 0; j-- {
+			sel := rng.Perm(n)[:t+rng.Intn(2)]
+			if j%3 == 0 {
+				sel = b
+			}
+			st = append(st, "r:0:"+set(h1, sel))
+		}
+	}
+	return fmt.Sprintf("hist %d %d %s %s", t, n, CSVOf(coeffs), strings.Join(st, "/"))
+}
